@@ -27,6 +27,11 @@ static W_LEN: [AtomicUsize; SLOTS] = [const { AtomicUsize::new(0) }; SLOTS];
 /// 0 = free slot / not yet released, 1 = released all-zero, 2 = released with non-zero bytes
 static W_STATE: [AtomicU8; SLOTS] = [const { AtomicU8::new(0) }; SLOTS];
 static W_NONZERO: [AtomicUsize; SLOTS] = [const { AtomicUsize::new(0) }; SLOTS];
+/// copy of the watched bytes taken at watch() time: at release the WHOLE block (spare capacity included)
+/// is searched for it, so a stale second copy behind the live length is seen as well
+static mut W_VALUE: [[u8; 32]; SLOTS] = [[0u8; 32]; SLOTS];
+/// offset+1 at which a copy of the watched value was found elsewhere in the released block (0 = none)
+static W_COPY_AT: [AtomicUsize; SLOTS] = [const { AtomicUsize::new(0) }; SLOTS];
 static W_ACTIVE: AtomicUsize = AtomicUsize::new(0);
 
 const SECRETS: usize = 8;
@@ -67,6 +72,15 @@ pub fn watch(ptr: *const u8, len: usize) -> usize {
     for i in 0..SLOTS {
         if W_ADDR[i].compare_exchange(0, ptr as usize, Ordering::SeqCst, Ordering::SeqCst).is_ok() {
             W_LEN[i].store(len, Ordering::SeqCst);
+            unsafe {
+                let v = std::ptr::addr_of_mut!(W_VALUE) as *mut [u8; 32];
+                let mut copy = [0u8; 32];
+                for k in 0..len.min(32) {
+                    copy[k] = std::ptr::read_volatile(ptr.add(k));
+                }
+                *v.add(i) = copy;
+            }
+            W_COPY_AT[i].store(0, Ordering::SeqCst);
             W_STATE[i].store(0, Ordering::SeqCst);
             W_NONZERO[i].store(0, Ordering::SeqCst);
             W_ACTIVE.fetch_add(1, Ordering::SeqCst);
@@ -81,8 +95,20 @@ pub fn verdict(slot: usize) -> (u8, usize) {
     (W_STATE[slot].load(Ordering::SeqCst), W_NONZERO[slot].load(Ordering::SeqCst))
 }
 
+/// Some(offset) if the released block held another copy of the watched value outside the first `len` bytes.
+pub fn stale_copy(slot: usize) -> Option<usize> {
+    match W_COPY_AT[slot].load(Ordering::SeqCst) {
+        0 => None,
+        n => Some(n - 1),
+    }
+}
+
 pub fn unwatch(slot: usize) {
     if slot < SLOTS {
+        unsafe {
+            let v = std::ptr::addr_of_mut!(W_VALUE) as *mut [u8; 32];
+            *v.add(slot) = [0u8; 32];
+        }
         if W_STATE[slot].load(Ordering::SeqCst) == 0 {
             // never released while watched
             W_ACTIVE.fetch_sub(1, Ordering::SeqCst);
@@ -189,6 +215,18 @@ unsafe fn inspect(ptr: *mut u8, size: usize) {
                     }
                 }
                 W_NONZERO[i].store(nz, Ordering::SeqCst);
+                // the rest of the block (e.g. spare Vec capacity): look for the value itself. Not under Miri,
+                // where reading uninitialised spare capacity would itself be an error.
+                if !cfg!(miri) && size >= len + 16 && len >= 16 {
+                    let v = &*(std::ptr::addr_of!(W_VALUE) as *const [u8; 32]).add(i);
+                    if v.iter().any(|b| *b != 0) {
+                        let block = std::slice::from_raw_parts(ptr as *const u8, size);
+                        if let Some(pos) = block[len..].windows(16).position(|w| w == &v[..16] || w == &v[16..32]) {
+                            W_COPY_AT[i].store(len + pos + 1, Ordering::SeqCst);
+                            nz = nz.max(1);
+                        }
+                    }
+                }
                 W_STATE[i].store(if nz == 0 { 1 } else { 2 }, Ordering::SeqCst);
                 W_ACTIVE.fetch_sub(1, Ordering::SeqCst);
             }
